@@ -71,7 +71,7 @@ func (c *Ctx) ruleLegacyExtCopy(rule string) {
 		R.Unk(rule, fl.Key, P.Pos(fl.Decl), "the variable holding tag.Unmarshal's result was not found")
 		return
 	}
-	copied := map[string]string{}   // attr -> position
+	copied := map[string]string{}    // attr -> position
 	elsewhere := map[string]string{} // attr -> rhs text
 	walk(fl.Decl.Body, func(n ast.Node) bool {
 		as, ok := n.(*ast.AssignStmt)
